@@ -183,7 +183,12 @@ func init() {
 		in := fr.in
 		h := args[0].(*Term)
 		if !h.IsConst() {
-			panic(unsupported("crypto.Hash.New on a symbolic hash id (branch on it first)"))
+			// fork over the feasible identifiers (a table lookup instead of a switch leaves it symbolic)
+			h64 := h
+			if h.w < 64 {
+				h64 = in.ts.Zext(h, 64)
+			}
+			h = in.ts.BV(h.w, in.concretize(h64, "crypto.Hash id"))
 		}
 		var pkg, ctor string
 		switch h.val {
